@@ -37,6 +37,36 @@ CONFIG = {
         "rule": "random histories of public-API calls (10 leaf kinds, at, with_span, multiple, flatten, clone, into_iter, add_sibling_alts) as stack programs of 1..28 ops; a case is non-trivial when some resulting error has len >= 2; distinct by case text",
         "assumptions": ["spans are opaque byte ranges; syn::Error conversion observed through syn::Error::into_iter"],
     },
+    "C11": {
+        "lean_modules": ["Darling.Props.C11"],
+        "streams": [
+            {"name": "c11", "n": {"quick": 4000, "thorough": 60000},
+             "args": {"quick": [], "thorough": ["--exhaustive", "70000"]},
+             "trivial": lambda case, ans: False},
+        ],
+        "rule": "24 integer targets x (every type boundary +-3 and small values, each in decimal/hex/binary/octal/underscored/suffixed unquoted spellings and +/space/leading-zero/suffix quoted spellings) + random 1..45-digit strings + 33 scalar targets x 57 literal/meta forms + from_none; thorough adds the exhaustive range [-70000,70000] x 24 x {quoted, unquoted}; distinct by case text, all counted non-trivial",
+        "assumptions": ["std's float parser is a parameter (oracle rows carry str::parse::<f32/f64> bit patterns); syn's literal normalisation (base10_digits) is trusted", "usize/isize are 64-bit on the sandbox target"],
+        "partial": "floats: dispatch only (parseF is external)",
+    },
+    "C12": {
+        "lean_modules": ["Darling.Props.C12"],
+        "streams": [
+            {"name": "c12", "n": {"quick": 60000, "thorough": 600000},
+             "trivial": lambda case, ans: False},
+        ],
+        "rule": "grid of 7 inner targets x 10 wrappers x 7x10 two-level compositions (567 types), each with from_none and random picks from 50 fixed meta forms (word / list incl. malformed bodies / name-value literal / name-value expression); distinct by case text",
+        "assumptions": ["inner targets so far: bool, u8, i64, String, char, (), Flag (syntax-typed and derived inners are added with C13/C01)"],
+    },
+    "C15": {
+        "lean_modules": ["Darling.Props.C15"],
+        "streams": [
+            {"name": "c15b", "n": {"quick": 50000, "thorough": 50000},
+             "trivial": lambda case, ans: False},
+        ],
+        "rule": "(b) exhaustive: all 2^7 probe implementers x {returning Ok, returning a span-less error} x 165 item forms (word, global/raw paths, 23 literal spellings, 12 expression kinds, 16 list bodies incl. malformed, each also wrapped in 1 and 2 invisible groups) + every literal in nested-literal position; distinct by case text",
+        "assumptions": ["probe hooks are the only overridden methods (from_meta / from_nested_meta left at default), as the statement's 2^7 subsets prescribe"],
+        "partial": "(b) routing proved and exhaustively corresponded; (a) token-level splitting is added by stream c15a",
+    },
     "C05": {
         "lean_modules": ["Darling.Props.C05"],
         "streams": [
